@@ -370,10 +370,10 @@ def c14_concurrent(ctx, only=None):
     import adb_shell.adb_device as sync_mod
     from adb_shell.adb_device import AdbDevice
     rep = ctx.report
-    n = int((40 if ctx.tier == "quick" else 600) * ctx.budget) if only is None else 1
+    n = int((100 if ctx.tier == "quick" else 1500) * ctx.budget) if only is None else 1
     for k in range(n):
         nthreads = ctx.rng.choice([2, 2, 3]) if only is None else only["threads"]
-        start = ctx.rng.choice([0, 1, 2 ** 32 - 3, 2 ** 32 - 2, 2 ** 32 - 1]) if only is None else only["start"]
+        start = ctx.rng.choice([0, 1, 2 ** 32 - 3, 2 ** 32 - 2, 2 ** 32 - 2, 2 ** 32 - 1, 2 ** 32 - 1]) if only is None else only["start"]
         clock = transports.Clock(1 << 40)
         link = transports.Link(clock, [dict(sim=dict(maxdata=4096, default_chunks=[]), dt=1)])
         sync_mod.time = clock
